@@ -104,8 +104,10 @@ func (s *Service) ScheduleJob(ctx context.Context,
 
 	s.log.Trace().Str("job", name).Time("scheduled", runtime).Msg("Scheduled job")
 	go func() {
+		defer verifPoint("exit", name)
 		select {
 		case <-ctx.Done():
+			verifPoint("ctx", name)
 			s.log.Trace().Str("job", name).Time("scheduled", runtime).Msg("Parent context done; job not running")
 			s.jobsMutex.Lock()
 			delete(s.jobs, name)
@@ -113,12 +115,14 @@ func (s *Service) ScheduleJob(ctx context.Context,
 			finaliseJob(job)
 			monitorJobCancelled(class)
 		case <-job.cancelCh:
+			verifPoint("cancel", name)
 			s.log.Trace().Str("job", name).Time("scheduled", runtime).Msg("Cancel triggered; job not running")
 			// If we receive this signal the job has already been deleted from the jobs list so no need to
 			// do so again here.
 			finaliseJob(job)
 			monitorJobCancelled(class)
 		case <-job.runCh:
+			verifPoint("run", name)
 			s.log.Trace().Str("job", name).Time("scheduled", runtime).Msg("Run triggered; job running")
 			// If we receive this signal the job has already been deleted from the jobs list so no need to
 			// do so again here.
@@ -128,11 +132,14 @@ func (s *Service) ScheduleJob(ctx context.Context,
 			finaliseJob(job)
 			job.active.Store(false)
 		case <-time.After(time.Until(runtime)):
+			verifPoint("timer", name)
 			// It is possible that the job is already active, so check that first before proceeding.
 			if job.active.Load() {
+				verifPoint("timer-claimed", name)
 				s.log.Trace().Str("job", name).Time("scheduled", runtime).Msg("Already running; job not running")
 				break
 			}
+			verifPoint("timer-unclaimed", name)
 			s.jobsMutex.Lock()
 			delete(s.jobs, name)
 			s.jobsMutex.Unlock()
@@ -186,6 +193,7 @@ func (s *Service) SchedulePeriodicJob(ctx context.Context,
 	monitorJobScheduled(class)
 
 	go func() {
+		defer verifPoint("p-exit", name)
 		for {
 			runtime, err := runtimeFunc(ctx)
 			if errors.Is(err, scheduler.ErrNoMoreInstances) {
@@ -222,13 +230,16 @@ func (s *Service) SchedulePeriodicJob(ctx context.Context,
 				monitorJobCancelled(class)
 				return
 			case <-job.runCh:
+				verifPoint("p-run", name)
 				s.log.Trace().Str("job", name).Time("scheduled", runtime).Msg("Run triggered; job running")
 				monitorJobStartedOnSignal(class)
 				jobFunc(ctx)
 				s.log.Trace().Str("job", name).Time("scheduled", runtime).Msg("Job complete")
 				job.active.Store(false)
 			case <-time.After(time.Until(runtime)):
+				verifPoint("p-timer", name)
 				if job.active.Load() {
+					verifPoint("p-timer-claimed", name)
 					s.log.Trace().Str("job", name).Time("scheduled", runtime).Msg("Already running; job not running")
 					continue
 				}
@@ -260,6 +271,7 @@ func (s *Service) RunJob(ctx context.Context, name string) error {
 		delete(s.jobs, name)
 	}
 	s.jobsMutex.Unlock()
+	verifPoint("runjob-claimed", name)
 
 	return s.runJob(ctx, job)
 }
@@ -279,6 +291,7 @@ func (s *Service) RunJobIfExists(ctx context.Context, name string) {
 		delete(s.jobs, name)
 	}
 	s.jobsMutex.Unlock()
+	verifPoint("runjob-claimed", name)
 
 	//nolint
 	s.runJob(ctx, job)
@@ -315,6 +328,7 @@ func (s *Service) CancelJob(_ context.Context, name string) error {
 	}
 	delete(s.jobs, name)
 	s.jobsMutex.Unlock()
+	verifPoint("cancel-claimed", name)
 
 	job.stateLock.Lock()
 	if job.finalised.Load() {
